@@ -11,6 +11,7 @@ package job
 //@     : (cfg.DefaultTTLSecondsAfterFinished != nil ? *cfg.DefaultTTLSecondsAfterFinished : 0)
 
 //@ func GetTTLAfterFinished
+//@   params rj, cfg
 //@   tags C13
 //@   safety overflow, nil
 //@   requires rj != nil && cfg != nil
@@ -22,12 +23,14 @@ package job
 //@     : (cfg.DefaultPendingTimeoutSeconds != nil ? *cfg.DefaultPendingTimeoutSeconds : 0)
 
 //@ func GetPendingTimeout
+//@   params rj, cfg
 //@   tags C12
 //@   safety overflow, nil
 //@   requires rj != nil && cfg != nil && rj.Spec.Template != nil
 //@   ensures [C12] pending-value: result == pendingTimeoutSeconds(rj, cfg) * 1000000000
 
 //@ func GetForceDeleteTimeout
+//@   params cfg
 //@   tags C12
 //@   safety overflow, nil
 //@   requires cfg != nil
@@ -40,20 +43,24 @@ package job
 //@ pure IsActive(rj *execution.Job) bool = IsStarted(rj) && !rj.Status.Phase.IsTerminal()
 
 //@ func IsStarted
+//@   params rj
 //@   requires rj != nil
 //@   ensures [C05,C06,C07,C11] result == IsStarted(rj)
 
 //@ func IsQueued
+//@   params rj
 //@   requires rj != nil
 //@   ensures [C05,C06,C07] result == IsQueued(rj)
 
 //@ func IsActive
+//@   params rj
 //@   requires rj != nil
 //@   ensures [C05,C06,C15] result == IsActive(rj)
 
 // ---- task_status.go: UpdateJobTaskRefs ------------------------------------------------------------------------------
 // FilterTaskRefs keeps exactly the refs for which the caller-supplied predicate holds (the predicate is assumed pure)
 //@ func FilterTaskRefs
+//@   params taskRefs, filter
 //@   tags C11
 //@   fresh result
 //@   loop 1 invariant -1 <= rangeindex && rangeindex < len(taskRefs) && len(newRefs) <= rangeindex + 1
@@ -66,6 +73,7 @@ package job
 // the list records the task under its name with the status the task object reports (so not as lost)
 //@ pure notLost(refs []execution.TaskRef, t jobtasks.Task) bool = exists i int :: 0 <= i && i < len(refs) && refs[i].Name == jobtasks.taskName(t) && refs[i].Status == jobtasks.taskRefOf(t).Status
 //@ func UpdateJobTaskRefs
+//@   params rj, tasks
 //@   tags C09, C11
 //@   requires rj != nil
 //@   modifies clock
@@ -82,6 +90,7 @@ package job
 
 // sets the DeletedStatus of the named task if it has none yet; every other field of every recorded task is kept (C09, C12)
 //@ func UpdateTaskRefDeletedStatusIfNotSet
+//@   params rj, taskName, status
 //@   tags C09, C12, C13
 //@   requires rj != nil
 //@   fresh result
@@ -99,6 +108,7 @@ package job
 // (C11) recorded running / finish times are never cleared; (C09) a DeletedStatus that was set is kept unless the task reports its own final status.
 
 //@ func GetTaskRef
+//@   params existing, task
 //@   tags C09, C11
 //@   ensures [C11] name-from-task: result.Name == jobtasks.taskName(task)
 //@   ensures [C11] running-time-never-cleared: existing != nil && !existing.RunningTimestamp.IsZero() ==> !result.RunningTimestamp.IsZero()
@@ -117,6 +127,7 @@ package job
 //@ pure taskNameOf(jobName string, index tasks.TaskIndex) string = sprintf("%v-%v-%v", jobName, parallel.hashOf(index.Parallel), index.Retry)
 
 //@ func GenerateTaskName
+//@   params name, index
 //@   ensures [C08,C09,C14] name-is-a-function-of-job-index-retry: result1 == nil ==> result0 == taskNameOf(name, index)
 
 // ---- task_status.go: GenerateTaskRefs (C09: tasks are never forgotten; C11: recorded times are never cleared) ---------------
@@ -125,11 +136,13 @@ package job
 //@ pure isLost(r execution.TaskRef) bool = r.Status.State == execution.TaskDeletedFinalStateUnknown
 
 //@ func SortTaskRefs
+//@   params taskRefs
 //@   modifies elems(taskRefs)
 //@   ensures [C09] same-elements: (forall i int :: 0 <= i && i < len(taskRefs) ==> (exists j int :: 0 <= j && j < len(taskRefs) && taskRefs[i] == old(taskRefs[j])))
 //@        && (forall j int :: 0 <= j && j < len(taskRefs) ==> (exists i int :: 0 <= i && i < len(taskRefs) && taskRefs[i] == old(taskRefs[j])))
 
 //@ func GenerateTaskRefs
+//@   params existing, tasks
 //@   tags C09, C11
 //@   modifies clock
 //@   loop 1 invariant -1 <= rangeindex && rangeindex < len(existing) && existingRefs != nil
@@ -163,10 +176,12 @@ package job
 //@     ((c.Queueing != nil ? 1 : 0) + (c.Waiting != nil ? 1 : 0) + (c.Running != nil ? 1 : 0) + (c.Finished != nil ? 1 : 0)) == 1
 
 //@ func GetAdmissionErrorMessage
+//@   params rj
 //@   requires rj != nil
 //@   ensures result1 == admErr(rj)
 
 //@ func GetCondition
+//@   params rj
 //@   tags C10, C11, C12
 //@   requires rj != nil
 //@   modifies clock
@@ -197,6 +212,7 @@ package job
 // ---- phase.go ------------------------------------------------------------------------------------------------------------------------
 
 //@ func GetPhase
+//@   params rj
 //@   tags C10, C11
 //@   requires rj != nil
 //@   modifies clock
